@@ -86,6 +86,11 @@ fn main() {
     match a.prop.as_str() {
         #[cfg(feature = "std")]
         "C01" | "C03" | "C04" => mon_exec::run(&a.prop.clone(), &a, &mut rep),
+        #[cfg(feature = "std")]
+        "dbg-long" => {
+            dbg_long(&a);
+            return;
+        }
         other => {
             eprintln!("unknown property/command {other}");
             std::process::exit(2);
@@ -96,5 +101,30 @@ fn main() {
         println!("{}", serde_json::to_string_pretty(&rep.to_json()).unwrap());
     } else {
         rep.write(&a.out);
+    }
+}
+
+#[cfg(feature = "std")]
+pub fn dbg_long(a: &Args) {
+    let n: usize = a.rest.first().and_then(|s| s.parse().ok()).unwrap_or(33000);
+    for variant in 0..4u64 {
+        let mut rng = util::Rng::new(1);
+        let c = genp::gen_long(&mut rng, n, variant);
+        let t = std::time::Instant::now();
+        let mut vm = exec::build_vm(&c, exec::Family::Plain).unwrap();
+        let r = vm.cl_compile();
+        eprintln!("{} n={} cranelift compile {:?} in {:?}", c.class, n, r.is_ok(), t.elapsed());
+        let t = std::time::Instant::now();
+        let r = vm.jit_compile();
+        eprintln!("   jit compile {:?} in {:?}", r.is_ok(), t.elapsed());
+        let t = std::time::Instant::now();
+        let ri = vm.exec((std::ptr::null_mut(), 0), (std::ptr::null_mut(), 0));
+        eprintln!("   interp {:?} in {:?}", ri, t.elapsed());
+        let t = std::time::Instant::now();
+        let e = sys::in_child(20, 60, || {
+            let r = vm.exec_cl((std::ptr::null_mut(), 0), (std::ptr::null_mut(), 0));
+            eprintln!("   cranelift exec {:?}", r);
+        });
+        eprintln!("   cranelift child {:?} in {:?}", e, t.elapsed());
     }
 }
